@@ -257,6 +257,17 @@ func c16Triples(c *Ctx, n int) []c16Triple {
 			ts = append(ts, c16Triple{qc[0], schema, qc[1], "dotted-step-ids", nil})
 		}
 	}
+	// literals that hold an escaped backslash in front of a letter that has an escape of its own (`"C:\\temp"`): each text has one
+	// answer, the one a fresh process gives, however often and in whatever order the query is parsed
+	{
+		schema := "input: {\n\tname: string\n\tpath: string\n\t_dependencies: []\n}\n"
+		for _, lit := range []string{`C:\\temp`, `\\n`, `a\\tb\\nc`, `\\\\a`, `x\\"y`, `\\r\\v\\f\\b\\a`, `dir\\new\\table`, `\\t`, `\\\\n\\\\t`, `q\\nq\\tq`} {
+			for _, fn := range []string{"Equal", "Contains", "Suffix"} {
+				q := "$.input.name." + fn + "(\"" + lit + "\")"
+				ts = append(ts, c16Triple{q, schema, "", "escaped-backslash-literals", nil}, c16Triple{q + " ", schema, "", "escaped-backslash-literals", nil})
+			}
+		}
+	}
 	// the same query text validated in several contexts - a schema in which a path argument of a call fails (its filter is applied to an
 	// object), a current step for which a field read inside the argument is blocked, and the good context again: what the cached
 	// operation keeps from one validation must not show in the next, and trees returned earlier stay what they were
